@@ -1208,3 +1208,26 @@ Proof. vm_compute. reflexivity. Qed.
 Example ex_exit_full : exists blk sc e,
   exit full8 [] = Some (Some blk, str_init, sc, e) /\ take 9 blk = [48;49;50;51;52;53;54;55;0].
 Proof. vm_compute. do 3 eexists. split; reflexivity. Qed.
+
+(* hypotheses of catf_exact / cmp_sign_all / exit_handover are satisfiable by non-trivial states *)
+Example ex_catf_hyps :
+  let m := fst (run [OCats TA [97;98;99]; OCatn_ TB [1;2]] (m_init [])) in
+  minv m /\ fits (sel TA m) (len [48;49;50;51;52] + 1) /\
+  exists m' e, step (OCatf TA [48;49;50;51;52]) m = (m', RInt 5, e) /\ any_failed e = false /\
+               content (sel TA m') = [97;98;99;48;49;50;51;52] /\ mem (sel TA m') = 16.
+Proof.
+  split; [|split].
+  - apply run_inv; [apply minv_init|]. apply ops_okb_sound. vm_compute. reflexivity.
+  - vm_compute. reflexivity.
+  - vm_compute. do 2 eexists. repeat split.
+Qed.
+
+Example ex_cmp_hyps :
+  inv full8 /\ inv abcdefg /\ inv str_init /\
+  cmp full8 abcdefg = Some (-1)%Z /\ cmp abcdefg str_init = Some 1%Z /\
+  cmps abcdefg [97;98;99;100;101;102;103;0;255] = Some 0%Z /\ cmpn abcdefg [97;98;99;100;101;102;103;0] = Some (-1)%Z.
+Proof.
+  split; [apply inv_full8|]. split.
+  { unfold inv, abcdefg, buf; cbn. rewrite W64_val. repeat split; try lia. }
+  split; [apply inv_init|]. vm_compute. repeat split.
+Qed.
